@@ -30,6 +30,12 @@ def monitor(meta, out):
     uid0, gid0, ng0, sg, sgid, suid = cred
     started_root = uid0 == 0 and gid0 == 0 and ng0 > 0
     bad = stat[0] != "ok" or stat[1] == 0 or stat[2] == 0 or sg != "ok" or sgid != "ok" or suid != "ok"
+    attempted = stat[0] == "ok" and stat[1] != 0 and stat[2] != 0
+    if attempted and "fail" in (sg, sgid, suid) and (loads or not lines[-1].startswith("exit 1")):
+        # whatever the initial credentials: a switch that is attempted and reports failure stops the daemon
+        # (an unusable owner while already unprivileged is not judged: fanotify_init fails first in reality)
+        return ("switches %s %s %s: a switch that fails must end the daemon with a failure, but %s"
+                % (sg, sgid, suid, "the handler was loaded" if loads else "main ended with '%s'" % lines[-1]))
     if started_root and bad and loads:
         return "the drop should have failed closed (stat %s, switches %s %s %s) but the handler was loaded" % (stat, sg, sgid, suid)
     if started_root and bad and not lines[-1].startswith("exit 1"):
@@ -63,10 +69,10 @@ def main(rep):
                 found = True
                 break
             if exe_model and impl.get(cid) != model.get(cid):
-                rep.violation("correspondence", {"case": cid, "script": script.split("\n"), "implementation": impl.get(cid), "model": model.get(cid),
-                                                 "what": "implementation and model differ"}, found_input=False)
-                found = True
-                break
+                # a divergence is reported only if no monitor fires on any case (a concrete failing input wins)
+                rep.defer_divergence({"case": cid, "script": script.split("\n"), "implementation": impl.get(cid), "model": model.get(cid),
+                                                 "what": "implementation and model differ"})
+                continue
             validated += 1
         rep.cov["traces_validated_against_impl"] = validated
         for p in problems:
